@@ -167,7 +167,10 @@ def check_case(case):
             with D.quiet():
                 c = np.asarray(dec.decode(s))
             if kind == 'coset-optimality':
-                wx, wz = em.get_weights(code, case['p'])
+                # reference weights computed here from the per-qubit marginals (not through get_weights)
+                _, px, py, pz = em.probability_distribution(code, case['p'])
+                wx = np.log((1 - (px + py)) / (px + py))
+                wz = np.log((1 - (pz + py)) / (pz + py))
                 allv, sxz, sxx = _coset_tables(code)
                 Hz, Hx = D.dense(code.Hz) % 2, D.dense(code.Hx) % 2
                 for (half, w, tab, M, part) in ((c[:n], wx, sxz, Hz, e[:n]), (c[n:], wz, sxx, Hx, e[n:])):
@@ -177,7 +180,7 @@ def check_case(case):
                         return f'PyMatching answer is not a solution for error x={xs} z={zs}'
                     best = float((allv[feas] @ w).min())
                     got = float(half.astype(np.int64) @ w)
-                    if got > best + 1e-9 * max(1.0, abs(best)):
+                    if got > best + 1e-5 * max(1.0, abs(best)):   # PyMatching discretises weights (~2^-24 relative)
                         return (f'correction weight {got:.6f} exceeds the coset minimum {best:.6f} '
                                 f'for error x={xs} z={zs}')
             else:
